@@ -43,8 +43,11 @@ def shards(tier):
 def main(tier, seed, collect=None):
     t0 = time.time()
     total = core.run_shards(run_shard, shards(tier), seed=seed, pid=PID)
+    other_hosts = core.run_on_hosts(PID, ["py310", "py311", "py313"], "quick", seed, total) if tier == "thorough" else []
+
     c = total.c
     cov = {
+        "converter_hosts": [core.HOST] + other_hosts,
         "evaluations": c["executions"],
         "distinct_nontrivial": c["programs_in_scope"],
         "rule": "every derivation of the compose grammar up to the node bound is one program (distinct derivation key); non-trivial = "
